@@ -21,6 +21,7 @@ def _ops():
         op("remove_nonsvg_content"), op("remove_processing_instructions"), op("remove_anonymous_symbols"), op("remove_title_meta_desc"),
         op("set_attributes", (("data-x", "1"),), xpath="//svg:rect | //svg:path | /svg:svg"), op("remove_attributes", ("width", "fill")), op("normalize_opacity"),
         op("resolve_nested_svgs"), op("topicosvg"),
+        op("append_to", "/svg:svg", "<rect xmlns='http://www.w3.org/2000/svg' x='1' y='2' width='3' height='4' fill='purple'/>", query="mutating-no-inplace"),
         op("shapes", query=True), op("bounding_box", query=True), op("view_box", query=True), op("tostring", query=True), op("checkpicosvg", query=True),
     ]
 
@@ -48,6 +49,9 @@ def run_history(doc, hist, reparse):
         if reparse:
             svg = SVG.fromstring(svg.tostring())
         try:
+            if query == "mutating-no-inplace":
+                getattr(svg, name)(args[0], etree.fromstring(args[1]))
+                continue
             if query:
                 getattr(svg, name)(*args, **kw)
                 continue
@@ -63,6 +67,17 @@ def run_history(doc, hist, reparse):
                 svg = res if res is not None else svg
         except Exception as e:  # noqa
             return ("exc", type(e).__name__, notes)
+    # the object must agree with its own serialisation: what shapes() reports == the shapes of tostring() re-parsed
+    try:
+        import dataclasses
+
+        summary = lambda shapes: [(type(x).__name__,) + tuple(dataclasses.astuple(x)) for x in shapes]
+        mine = summary(svg.shapes())
+        theirs = summary(SVG.fromstring(svg.tostring()).shapes())
+        if mine != theirs:
+            notes.append(f"shapes() reports {len(mine)} shape(s) that differ from the {len(theirs)} shape(s) of the object's own serialisation")
+    except Exception:  # noqa
+        pass
     return ("ok", canon(svg), notes)
 
 
